@@ -1848,3 +1848,150 @@ Qed.
    functions the extracted model runs *)
 Example ip6_oracle_satisfiable : ip6_oracle glibc_pton6 glibc_ntop6.
 Proof. exact glibc_ip6_oracle. Qed.
+
+(* ================================================================== *)
+(* Coroutine form = big-step form; concurrent connections are independent. *)
+
+Lemma run_p_fill : forall fuel target read k s,
+  run_proc (p_fill fuel target read k) s
+  = let '(r, s1) := read_fill fuel target read s in run_proc (k r) s1.
+Proof.
+  induction fuel as [|f IH]; intros target read k s; cbn [p_fill read_fill].
+  - destruct (target <=? length read)%nat; reflexivity.
+  - destruct (target <=? length read)%nat; [reflexivity|].
+    cbn [run_proc]. destruct (recv_into s (target - length read)) as [chunk s'].
+    destruct chunk as [|c chunk]; [reflexivity|]. apply IH.
+Qed.
+
+Lemma run_p_line_loop : forall fuel read k s,
+  run_proc (p_line_loop fuel read k) s
+  = let '(r, s1) := read_line_loop fuel read s in run_proc (k r) s1.
+Proof.
+  induction fuel as [|f IH]; intros read k s; cbn [p_line_loop read_line_loop].
+  - destruct (107 <=? length read)%nat; reflexivity.
+  - destruct (107 <=? length read)%nat; [reflexivity|].
+    cbn [run_proc].
+    destruct (recv_into s (Nat.min (107 - length read) (if ends_cr read then 1 else 2))) as [chunk s'].
+    destruct chunk as [|c chunk]; [reflexivity|].
+    destruct (ends_crlf (read ++ c :: chunk)); [reflexivity|]. apply IH.
+Qed.
+
+Lemma run_p_read_pp_line : forall initial k s,
+  run_proc (p_read_pp_line initial k) s
+  = let '(r, s1) := read_pp_line initial s in run_proc (k r) s1.
+Proof.
+  intros initial k s. unfold p_read_pp_line, read_pp_line. rewrite run_p_fill.
+  destruct (read_fill 8 8 initial s) as [[read|e|] s1]; [|reflexivity|reflexivity].
+  apply run_p_line_loop.
+Qed.
+
+Section Refines.
+  Variable pton6 : bytes -> option bytes.
+  Variable ntop6 : bytes -> bytes.
+
+  Lemma run_p_process_v1 : forall initial s,
+    run_proc (p_process_v1 pton6 ntop6 initial) s = process_pp_v1 pton6 ntop6 initial s.
+  Proof.
+    intros initial s. unfold p_process_v1, process_pp_v1. rewrite run_p_read_pp_line.
+    destruct (read_pp_line initial s) as [[line|e|] s1]; reflexivity.
+  Qed.
+
+  Lemma run_p_process_v2 : forall initial s,
+    run_proc (p_process_v2 ntop6 initial) s = process_pp_v2 ntop6 initial s.
+  Proof.
+    intros initial s. unfold p_process_v2, process_pp_v2, read_pp_data. rewrite run_p_fill.
+    destruct (read_fill 16 16 initial s) as [[data|e|] s1]; cbn [run_proc].
+    - destruct (parse_pp_data data) as [[[[cmd fam] proto] addr_len]|e|]; cbn [run_proc].
+      + rewrite run_p_fill.
+        destruct (read_fill addr_len addr_len [] s1) as [[addr_data|e|] s2]; cbn [run_proc].
+        * destruct (parse_pp_addresses ntop6 fam addr_data) as [ret|e|].
+          { destruct cmd; reflexivity. }
+          { destruct e; reflexivity. }
+          { reflexivity. }
+        * destruct e; reflexivity.
+        * reflexivity.
+      + destruct e; reflexivity.
+      + reflexivity.
+    - destruct e; reflexivity.
+    - reflexivity.
+  Qed.
+
+  Lemma run_p_process_auto : forall s,
+    run_proc (p_process_auto pton6 ntop6) s = process_auto pton6 ntop6 s.
+  Proof.
+    intros s. unfold p_process_auto, process_auto. rewrite run_p_fill.
+    destruct (read_fill 8 8 [] s) as [[initial|e|] s1]; [|reflexivity|reflexivity].
+    destruct (starts_with PROXY_SP initial); [apply run_p_process_v1|].
+    destruct (beqb initial SIG8); [apply run_p_process_v2|reflexivity].
+  Qed.
+End Refines.
+
+(* ------------------------------------------------------------------ interleavings *)
+Fixpoint iter_step (n : nat) (c : conn) : conn :=
+  match n with O => c | S n' => iter_step n' (step_conn c) end.
+
+Definition count_pick (i : nat) (picks : list nat) : nat := count_occ Nat.eq_dec picks i.
+
+Lemma step_nth_same : forall cs i d, (i < length cs)%nat ->
+  nth i (step_nth i cs) d = step_conn (nth i cs d).
+Proof.
+  induction cs as [|c cs IH]; intros i d H; [cbn [length] in H; lia|].
+  destruct i as [|i]; [reflexivity|]. cbn [step_nth nth]. apply IH. cbn [length] in H. lia.
+Qed.
+
+Lemma step_nth_other : forall cs i j d, i <> j -> nth j (step_nth i cs) d = nth j cs d.
+Proof.
+  induction cs as [|c cs IH]; intros i j d H; [reflexivity|].
+  destruct i as [|i]; destruct j as [|j]; try reflexivity; try congruence.
+  cbn [step_nth nth]. apply IH. congruence.
+Qed.
+
+Lemma step_nth_length : forall cs i, length (step_nth i cs) = length cs.
+Proof.
+  induction cs as [|c cs IH]; intros i; [reflexivity|].
+  destruct i as [|i]; cbn [step_nth length]; [reflexivity|]. rewrite IH. reflexivity.
+Qed.
+
+(* whatever the schedule does with the other connections, connection j has
+   simply made as many of its own steps as the schedule gave it *)
+Lemma run_conns_nth : forall picks cs j d, (j < length cs)%nat ->
+  nth j (run_conns picks cs) d = iter_step (count_pick j picks) (nth j cs d).
+Proof.
+  induction picks as [|i picks IH]; intros cs j d Hj; [reflexivity|].
+  cbn [run_conns]. rewrite IH by (rewrite step_nth_length; exact Hj).
+  unfold count_pick. cbn [count_occ]. destruct (Nat.eq_dec i j) as [->|Hne].
+  - cbn [iter_step]. rewrite step_nth_same by exact Hj. reflexivity.
+  - rewrite step_nth_other by exact Hne. reflexivity.
+Qed.
+
+Lemma run_proc_step : forall c, run_proc (fst (step_conn c)) (snd (step_conn c)) = run_proc (fst c) (snd c).
+Proof.
+  intros [p s]. unfold step_conn. cbn [fst snd]. destruct p as [r|n k]; [reflexivity|].
+  cbn [run_proc]. destruct (recv_into s n) as [chunk s']. reflexivity.
+Qed.
+
+Lemma run_proc_iter : forall n c,
+  run_proc (fst (iter_step n c)) (snd (iter_step n c)) = run_proc (fst c) (snd c).
+Proof.
+  induction n as [|n IH]; intros c; [reflexivity|].
+  cbn [iter_step]. rewrite IH. apply run_proc_step.
+Qed.
+
+(* a reader that has finished in a concurrent run has the result, and has left
+   its socket in the state, of running alone on its own byte stream and read sizes *)
+Lemma connections_independent : forall picks cs j p s r s',
+  nth_error cs j = Some (p, s) ->
+  nth_error (run_conns picks cs) j = Some (PDone r, s') ->
+  run_proc p s = (r, s').
+Proof.
+  intros picks cs j p s r s' Hj Hr.
+  assert (Hlen : (j < length cs)%nat) by (apply nth_error_Some; congruence).
+  pose proof (run_conns_nth picks cs j (p, s) Hlen) as Hn.
+  assert (E1 : @nth conn j cs (p, s) = (p, s)) by exact (nth_error_nth cs j (p, s) Hj).
+  assert (E2 : @nth conn j (run_conns picks cs) (p, s) = (PDone r, s'))
+    by exact (nth_error_nth (run_conns picks cs) j (p, s) Hr).
+  rewrite E2, E1 in Hn.
+  pose proof (run_proc_iter (count_pick j picks) (p, s)) as Hi.
+  rewrite <- Hn in Hi. cbn [fst snd run_proc] in Hi. symmetry. exact Hi.
+Qed.
+
